@@ -523,11 +523,11 @@ class BaseEvent(BaseModel, Generic[T_EventResultType]):
                 f'Expected at least one handler to return a non-None result, but none did! {self} -> {self.event_results}'
             )
 
+        # note: a custom `include` may admit results whose value is None (the accessors are typed `T | None`),
+        # so no assertion on event_result.result here
         event_results_by_handler_id: dict[PythonIdStr, EventResult[T_EventResultType]] = {
             handler_key: result for handler_key, result in included_results.items()
         }
-        for event_result in event_results_by_handler_id.values():
-            assert event_result.result is not None, f'EventResult {event_result} has no result'
 
         return event_results_by_handler_id
 
